@@ -36,4 +36,8 @@ def selectCurve (fs : List FieldParam) (cs : List CurveParam) (st : CurveSel) (i
     | none => (st, false)
   | none => (st, false)
 
+/-- one step of the context's selection state: an accepted identifier installs its set, a rejected one changes nothing -/
+def selStep (fs : List FieldParam) (cs : List CurveParam) (st : CurveSel) (id : Nat) : CurveSel := (selectCurve fs cs st id).1
+
+
 end Relic.Model.Param
